@@ -177,7 +177,7 @@ func runTriples(r *engine.Run) {
 						toks, _ := syntax.Tokens(T, syntax.RenderOpts{})
 						h.check(key+"/min", T, syntax.Join(toks, false))
 					}
-					if r.MineKey(key + "/full") {
+					if r.Thorough() && r.MineKey(key+"/full") {
 						toks, _ := syntax.Tokens(T, syntax.RenderOpts{Full: true})
 						h.check(key+"/full", T, syntax.Join(toks, true))
 					}
